@@ -36,7 +36,15 @@ def reviewedWhitelist : List (NondetItem × String) := [
   (⟨"recvFieldWrite", "x/onboarding/keeper/keeper.go", "(*Keeper).SetICS4Wrapper", "k.ics4Wrapper", "3599b78e46"⟩,
     "wiring time (app.go), once per construction"),
   (⟨"recvFieldWrite", "x/onboarding/keeper/keeper.go", "(*Keeper).SetTransferKeeper", "k.transferKeeper", "54221fca6c"⟩,
-    "wiring time (app.go), once per construction")
+    "wiring time (app.go), once per construction"),
+  (⟨"recvFieldWrite", "x/epochs/types/epoch_info.go", "(*EpochInfo).EndEpoch", "ei.CurrentEpochStartTime", "bea0059370"⟩,
+    "EpochInfo is a value decoded from the store for one BeginBlocker iteration, mutated and written back (SetEpochInfo); it does not outlive the call"),
+  (⟨"recvFieldWrite", "x/epochs/types/epoch_info.go", "(*EpochInfo).StartInitialEpoch", "ei.CurrentEpoch", "ff8766f2b3"⟩,
+    "as above: a decoded record of one iteration, written back to the store"),
+  (⟨"recvFieldWrite", "x/epochs/types/epoch_info.go", "(*EpochInfo).StartInitialEpoch", "ei.CurrentEpochStartTime", "f0cb6d6e42"⟩,
+    "as above"),
+  (⟨"recvFieldWrite", "x/epochs/types/epoch_info.go", "(*EpochInfo).StartInitialEpoch", "ei.EpochCountingStarted", "83540840f4"⟩,
+    "as above")
 ]
 
 /-- **Every regenerated nondeterminism source is a reviewed one.** -/
